@@ -20,31 +20,31 @@ CHECKS = {
          "mount prefixes exclusive as the quantifier says (by construction); which handler is hit comes from C01's reference matcher; requests touching a node that the router's single-child compression merged across a mount point are attributed to the recorded known finding (classified from the configuration only)", "DESIGN.md §7 C04"),
  "C05": ("proptest-generated request sequences on one connection against an echo application; metamorphic oracle: k-th response = response of the same request alone on a fresh connection (frozen clock), through the re-stated session loop over a scripted reader and, for a share of cases, the real Session::manage over a socketpair",
          "Exploration of histories (1–6 requests, bodies around the buffer size, NUL bytes, context-setting fang, Connection: close). Right level: leakage between requests needs sequences whose earlier elements leave state behind; the metamorphic oracle is exact because the echo handlers reflect everything observable.",
-         "heads below 1 KiB; socketpair instead of the kernel's TCP stack; the in-memory loop re-states the six-line session loop (the real one is exercised on the socketpair share)", "DESIGN.md §7 C05"),
+         "heads below 1 KiB; socketpair instead of the kernel's TCP stack; the in-memory loop re-states the six-line session loop (the real one is exercised on a quarter of the cases over a socketpair); refused requests (400/505) and other Connection options occur inside the sequences", "DESIGN.md §7 C05"),
  "C06": ("proptest-generated request sequences × segmentations of their concatenated bytes; metamorphic oracle: response stream = that of the canonical segmentation; scripted AsyncRead and FIONREAD-paced socketpair through the real Session::manage",
          "Exploration of schedules of the byte stream (cut points biased to grammar borders and buffer borders, coalesced request borders). Right level: the variable the property quantifies over is the segmentation, which the harness owns completely.",
-         "heads below 1 KiB; deviations are classified by the segmentation alone (coalesced / head-split / body-or-border); coalesced requests are a recorded known finding", "DESIGN.md §7 C06"),
- "C07": ("proptest-generated requests against a compiled catalogue of 46 typed handler signatures; oracle = Rust FromStr over the canonical integer grammar after independent percent-decoding, value equality against reference encoders (serde_json, own urlencoded/multipart encoders), run/not-run accounting",
-         "Exploration of inputs × handler signatures: 400 000 (quick) requests over a segment grammar built around integer boundaries and encodings, and body/Content-Type combinations. Right level: the extractors are pure functions of the request with exact oracles.",
+         "heads below 1 KiB; deviations are classified by the segmentation alone (by simulating the reads: coalesced = a buffer-filling read reaches beyond its request; head-split; body-or-border); coalesced requests are a recorded known finding that excuses only the responses after the over-reading request", "DESIGN.md §7 C06"),
+ "C07": ("proptest-generated requests against a compiled catalogue of 61 typed handler signatures (incl. a derive(FromRequest) extractor and handlers that take fewer params than the route captures); oracle = Rust FromStr over the canonical integer grammar after independent percent-decoding, value equality against reference encoders (serde_json, own urlencoded/multipart encoders), run/not-run accounting",
+         "Exploration of inputs × handler signatures: 1.6 M (quick) requests over a segment grammar built around integer boundaries and encodings, and body/Content-Type combinations. Right level: the extractors are pure functions of the request with exact oracles.",
          "`+5` either; media type matching as documented (prefix); C09/C10 check the codecs themselves in depth", "DESIGN.md §7 C07"),
  "C08": ("proptest-generated byte strings (uniform, valid encodings from independent grammar generators, and their mutations with a punctuation/escape dictionary) × 8 decoders × a family of 139 target types incl. hand-written borrowing probes; totality monitor as oracle (Ok or Err; no unwinding panic; aborts/stack overflows seen by the supervisor; every yielded string re-validated as UTF-8; every borrowed slice inside the input)",
-         "Exploration of inputs × target types: 400 000 (quick) executions per run in isolated, recycled worker processes. Right level: 'total on arbitrary bytes' is the classic fuzzing property; the type family makes every serde entry point of each decoder reachable.",
+         "Exploration of inputs × target types: 1.2 M (quick) executions per run in isolated, recycled worker processes. Right level: 'total on arbitrary bytes' is the classic fuzzing property; the type family makes every serde entry point of each decoder reachable.",
          "memory safety beyond what debug precondition checks and pointer-range probes see is out of reach of this engine (the libFuzzer+ASan targets in /verif/fuzz add that); a self-describing top-level target recursing for ever is a recorded known finding and steered around", "DESIGN.md §7 C08"),
  "C09": ("proptest-generated values of a compiled catalogue of struct types (round-trip oracle) and independently encoded `k=v&…` texts (own encoder choosing escapes, order, unknown pairs; differential oracle), also through the real request query iterator",
-         "Exploration of inputs: 100 000 (quick) values/encodings per run over every supported field type with one failure key per field-type class. Right level: pure functions with exact inverse / independent encoder oracles.",
+         "Exploration of inputs: 1.2 M (quick) values/encodings per run over every supported field type with one failure key per field-type class. Right level: pure functions with exact inverse / independent encoder oracles.",
          "`Some(x)` with x encoding to the empty string is excluded (the format's stated convention: empty = None); [\"\"] vs [] is the same text", "DESIGN.md §7 C09"),
  "C10": ("proptest-generated forms encoded by an independent RFC 7578 encoder (boundary choice, optional part headers, header-name case) into a catalogue of target types (fits and deliberate misfits); field-by-field equality oracle",
-         "Exploration of inputs: 40 000 (quick) forms per run with binary contents built around CR/LF/`--`/boundary prefixes. Right level: the decoder is a pure function of the body; the encoder is an exact inverse to test against.",
+         "Exploration of inputs: 300 000 (quick) forms per run with binary contents built around CR/LF/`--`/boundary prefixes. Right level: the decoder is a pure function of the body; the encoder is an exact inverse to test against.",
          "conventions for absent/empty inputs as the crate's own tests fix them; contents never contain the delimiter; names/filenames without quote, backslash, CR, LF", "DESIGN.md §7 C10"),
  "C11": ("proptest-generated cookie jars encoded by an independent RFC 6265 encoder (plain / quoted / percent-encoded) decoded into typed structs and through the request's cookie iterator; proptest-generated Set-Cookie directive combinations built through the public response API and checked by an independent grammar checker + parser + the crate's own parser",
-         "Exploration of inputs: 80 000 (quick) jars / directive combinations per run. Right level: both directions are pure functions with independent codecs as oracles.",
+         "Exploration of inputs: 1.2 M (quick) jars / directive combinations per run. Right level: both directions are pure functions with independent codecs as oracles.",
          "Option fields never hold Some(\"\"); directive values follow the RFC grammar", "DESIGN.md §7 C11"),
  "C12": ("proptest-generated secrets × algorithms × payloads (time claims around a frozen clock) × token recipes (issued, reference-issued with header variations, single-character substitutions in each part, re-signed with other key/algorithm, alg:none, part-count and signature-length variations, arbitrary strings); reference HS256/384/512 verifier (RustCrypto hmac/sha2 + own base64url) as oracle, run/not-run accounting",
-         "Exploration of inputs × configurations: 50 000 (quick) cases, each sending a control and mutated tokens through the real fang and router. Right level: 'exactly the valid tokens' needs near-miss tokens generated from valid ones, which a generator derives mechanically.",
-         "typ/cty mismatches, Bearer letter case, non-canonical base64url are accept-either; OPTIONS bypass as documented; RustCrypto primitives are the trusted base", "DESIGN.md §7 C12"),
+         "Exploration of inputs × configurations: 600 000 (quick) cases, each sending a control and mutated tokens through the real fang and router; plus a dense sampling of unix_timestamp() against the wall clock with the freeze lifted. Right level: 'exactly the valid tokens' needs near-miss tokens generated from valid ones, which a generator derives mechanically.",
+         "typ/cty mismatches, Bearer letter case, non-canonical base64url of header/payload parts signed as written are accept-either (a non-canonical signature part is refused); OPTIONS bypass as documented; RustCrypto primitives are the trusted base", "DESIGN.md §7 C12"),
  "C13": ("proptest-generated credential lists × Authorization values (correct, mixed pairs, extended/shortened/replaced text, other schemes, invalid base64, non-UTF-8 payloads with the invalid byte first/middle/last, missing header); reference Basic verifier with an independent base64 encoder as oracle",
-         "Exploration of inputs × configurations: 50 000 (quick) cases through the real fang and router. Right level: exact oracle, cheap executions.",
-         "usernames without colon (RFC 7617); scheme letter case and optional whitespace are accept-either", "DESIGN.md §7 C13"),
+         "Exploration of inputs × configurations: 1 M (quick) cases through the real fang and router. Right level: exact oracle, cheap executions.",
+         "usernames without colon (RFC 7617); optional whitespace around the field value is accept-either; the scheme word in another letter case is refused, as the statement spells it", "DESIGN.md §7 C13"),
  "C14": ("proptest-generated CORS policies × application trees × simple/preflight requests; oracle = reference CORS model derived from the statement, fed with the policy and the flattened route table",
          "Exploration of policies × configurations × requests through the real CORS fang, automatic OPTIONS handlers, router and serializer. Right level: the property fails through interactions of registration shape (methods split over items/mounts) with preflights, which need generated configurations.",
          "policy on the root application; HEAD/OPTIONS as requested method accept either outcome; Vary unchecked", "DESIGN.md §7 C14"),
